@@ -64,7 +64,8 @@ def run(ctx):
     # malformed programs: single-token mutations of generated valid programs
     base = semcheck.gen_programs(ctx.seed * 7919 + 271, ctx.pick(60, 500), "strat")
     tok = re.compile(r"\s*([A-Za-z_][A-Za-z0-9_]*|\d+\.\d+|\d+|::|:-|\\\+|[()\[\],.;|]|\S)")
-    junk = ["(", ")", "[", "]", ",", ".", ":-", "::", "\\+", ";", "|", "'", "\"", "0.5", "X", "a", "=", "is", "1.1::", "-"]
+    junk = ["(", ")", "[", "]", ",", ".", ":-", "::", "\\+", ";", "|", "'", "\"", "0.5", "X", "a", "=", "is", "1.1::", "-",
+            "0x", "0xg", "1e", "0'", "()", "(,)", "[|]", "{}", "<-", "\\"]
     for p in base:
         t = progs.render(p)
         toks = tok.findall(t)
@@ -93,6 +94,14 @@ def run(ctx):
               "0.5::a. evidence(a, maybe). query(a).", "a :- a. query(a).", "t(_)::a. query(a).", "P::a :- P = 0.3. query(a).",
               "P::a. query(a).", "a :- subquery(b, P). query(a).", "a :- subquery(b, P, c). b. query(a)."]:
         add("targeted", t[:30], t + "\n")
+    # number literals in every lexical form, valid and nearly valid (hex, exponents, character codes, radix prefixes)
+    LIT = ["0x1e", "0xE", "0xdeadbeef", "0xAB", "0x10", "0X1E", "0x", "0xg", "0x_1", "0x1.5", "1e", "1e5", "1.0e5", "1.5E-3", "1.e5",
+           "2.5e+3", "0.5e", "1E5", "0'a", "0' ", "0b101", "0o17", "1_000", "1.2.3", "00012", ".5", "5.", "1e400",
+           "123456789012345678901234567890", "1.0e-400", "-0x1e", "0xe+1", "1e5e5", "0xor 5", "0x::a"]
+    for lit in LIT:
+        for ctx_t in ("p(%s). query(p(_)).", "q(X) :- X = %s. query(q(_)).", "q(X) :- X is %s + 1. query(q(_)).", "%s::a. query(a).",
+                      "a :- 1 < %s. query(a).", "query(%s)."):
+            add("literal", lit, ctx_t % lit + "\n")
     chunk = 60
     jobs = [("run_texts", {"texts": texts[i:i + chunk], "mode": "infer"}) for i in range(0, len(texts), chunk)]
     jobs += [("run_texts", {"texts": [x for x in texts[i:i + chunk] if meta[x["id"]][0] != "builtin"], "mode": "parse"})
